@@ -6,7 +6,11 @@ lists of build / package / publish per target, file operations, tool effects) an
 one process per case: exception code, process cwd after the call, the whole file tree below the project, and the
 stub log (tool, identifying arguments, directory each tool ran in).
 Faults: for every configuration first a run with succeeding tools (its stub log enumerates the invocation points),
-then every invocation point k failing in turn, as "exits non-zero" and as "not on PATH from here on".
+then every invocation point k failing in turn, as "exits non-zero" and as "not on PATH from here on"; then *sets* of
+faults: whenever a run continued past its last injected fault (the failure was handled by the caller: a probe with a
+fallback), every later invocation point of *that* run fails in addition (non-zero, or tools gone from there on),
+recursively; thorough tier: every pair (i, j) of invocation points on top of that.
+Of several failing points the first that is not a handled probe has to be reported (`effectiveFault`, Lean).
 Specification on the implementation's observation (`c20.spec`, the Lean function `Pkg.spec`): fault ->
 code 130, cwd after = cwd before, no invocation after the failing one, no finished artifact in the package output
 directory (build / publish phase: nothing new there); every tool ran in the caller's directory or below it;
@@ -35,6 +39,14 @@ THEOREMS = [
     "Pydjinni.Sys.Pkg.build_leaves_output_untouched",
     "Pydjinni.Sys.Pkg.publish_leaves_output_untouched",
     "Pydjinni.Sys.Pkg.packageOp_fault_spec",
+    "Pydjinni.Sys.Pkg.first_unhandled_fault_ends",
+    "Pydjinni.Sys.Pkg.packageOp_faults_spec",
+    "Pydjinni.Sys.Pkg.faults_reported_or_recovered",
+    "Pydjinni.Sys.Pkg.probe_and_fallback_fail_reported",
+    "Pydjinni.Sys.Pkg.run_probeFollowed",
+    "Pydjinni.Sys.Pkg.execOr_log",
+    "Pydjinni.Sys.Pkg.faultsAt_nonzero",
+    "Pydjinni.Sys.Pkg.faultsAt_single",
 ]
 LEVEL = "proof"
 TRUSTED = ("external tools replaced by stub scripts that log their invocation, fail at the chosen point and otherwise leave the files the "
@@ -125,6 +137,84 @@ def fault_cases(base, calls, removed_gradlew=False):
     return out
 
 
+def is_probe(call) -> bool:
+    """the one invocation whose failure the caller is documented to tolerate (it falls back to `sources add`)"""
+    return call["tool"] == "nuget" and call["sig"] == ["sources", "update"]
+
+
+def phase_of(tool, base_phase):
+    return "build" if tool in ("conan", "lipo") else base_phase
+
+
+def fault_indices(f):
+    return [f["k"]] + list(f.get("also") or [])
+
+
+def extend_fault(base, f, calls, j, missing=False):
+    """the fault set `f` plus invocation point `j` of the run observed under `f` (its log is `calls`)"""
+    c = calls[j]
+    g = {"k": f["k"], "kind": "nonzero", "also": list(f.get("also") or []) + ([] if missing else [j]),
+         "then_missing": j if missing else None, "missing_tool": c["tool"] if missing else None,
+         "tool": c["tool"], "sig": c["sig"], "via_java": False, "model_kind": "nonzero", "set": True,
+         "points": [[k, calls[k]["tool"], calls[k]["sig"]] for k in fault_indices(f)] + [[j, c["tool"], c["sig"], "missing" if missing else "nonzero"]],
+         "phase": phase_of(c["tool"], base["phase"])}
+    return {**base, "fault": g}
+
+
+def follow_ups(results, seen, max_size=3):
+    """fault sets that extend the ones just run: wherever the run went on after its last injected fault"""
+    out = []
+    for c, o, m in results:
+        f = c.get("fault")
+        if not f or f["kind"] != "nonzero" or f.get("via_java") or f.get("then_missing") is not None or o.get("prepare_failed"):
+            continue
+        idx = fault_indices(f)
+        calls = o.get("calls", [])
+        if len(idx) >= max_size or len(calls) <= max(idx) + 1:
+            continue
+        base = {k: v for k, v in c.items() if k not in ("id", "fault")}
+        for j in range(max(idx) + 1, len(calls)):
+            for missing in (False, True):
+                if missing and calls[j]["tool"] == "gradlew":
+                    continue   # a missing `java` is a non-zero exit of the wrapper script: covered by the non-zero set
+                g = extend_fault(base, f, calls, j, missing)
+                key = json.dumps([base, g["fault"]["k"], g["fault"]["also"], g["fault"]["then_missing"]], sort_keys=True)
+                if key not in seen:
+                    seen.add(key)
+                    out.append(g)
+    return out
+
+
+def pair_cases(base, calls, seen):
+    """every pair (i, j), i < j, of invocation points of the succeeding run failing together (non-zero)"""
+    out = []
+    for i in range(len(calls)):
+        f = {"k": i, "kind": "nonzero", "also": []}
+        for j in range(i + 1, len(calls)):
+            g = extend_fault(base, f, calls, j)
+            key = json.dumps([base, i, [j], None], sort_keys=True)
+            if key not in seen:
+                seen.add(key)
+                out.append(g)
+    return out
+
+
+def fault_points(case, obs):
+    """the failing points of a fault set as far as the run reached them, read off the stub log (ascending)"""
+    f = case["fault"]
+    calls = obs.get("calls", [])
+    pts, reached_all = [], True
+    for k in sorted(fault_indices(f)):
+        if k >= len(calls):
+            reached_all = False
+            break
+        pts.append({"k": k, "handled": is_probe(calls[k]), "maxLogged": k + 1, "phase": phase_of(calls[k]["tool"], case["phase"])})
+    m = f.get("then_missing")
+    if m is not None and reached_all and len(calls) >= m:
+        pts.append({"k": m, "handled": False, "maxLogged": m, "phase": phase_of(f.get("missing_tool") or "", case["phase"])})
+    return pts
+
+
 def describe(case):
     d = {k: v for k, v in case.items() if k not in ("id", "timeout")}
     return d
@@ -162,6 +252,12 @@ def compare(case, obs, m):
 
 def spec_request(case, obs):
     f = case.get("fault")
+    if f and f.get("set"):
+        return {"op": "c20.spec", "key": case["key"], "phase": case["phase"], "fault": None, "maxLogged": 0,
+                "faults": fault_points(case, obs),
+                "obs": {"code": obs.get("code"), "cwdBefore": obs.get("cwdBefore") or ["proj"], "cwdAfter": obs.get("cwdAfter"),
+                        "outBefore": obs.get("outBefore", []), "outAfter": obs.get("outAfter", []),
+                        "ranIn": [c["ranIn"] for c in obs.get("calls", [])]}}
     return {"op": "c20.spec", "key": case["key"], "phase": f["phase"] if f else case["phase"],
             "fault": {"k": f["k"], "handled": f["handled"]} if f else None, "maxLogged": f["max_logged"] if f else 0,
             "obs": {"code": obs.get("code"), "cwdBefore": obs.get("cwdBefore") or ["proj"], "cwdAfter": obs.get("cwdAfter"),
@@ -191,9 +287,12 @@ def evaluate(ctx, cases, templates, breaks):
             raise common.Infra(f"driver error {m.get('error')} {s.get('error')}")
         f = c.get("fault")
         key = json.dumps([c["key"], c["phase"], c.get("publish_mode"), [len(a) for _, a in c["platforms"]], bool(c.get("dsym")), bool(c.get("pdb")),
-                          (f["tool"], f["sig"], f["kind"]) if f else None])
+                          (f["tool"], f["sig"], f["kind"]) if f else None,
+                          [p[1:] for p in f["points"]] if f and f.get("set") else None])
         ctx.count(key=key, nontrivial=f is not None, sample={"case": describe(c), "impl": {"code": o.get("code"), "cwdAfter": o.get("cwdAfter"), "calls": len(o.get("calls", []))}})
-        ctx.stat(f"{c['key']}_{c['phase']}_" + (f["kind"] if f else "ok"))
+        ctx.stat(f"{c['key']}_{c['phase']}_" + ((f"set{len(f['points'])}" if f.get("set") else f["kind"]) if f else "ok"))
+        if f and f.get("set") and s.get("effective"):
+            ctx.stat("set_effective_" + ("handled-only" if s["effective"]["handled"] else ("first" if s["effective"]["k"] == f["k"] else "later")))
         ctx.stat("impl_code_" + str(o.get("code")))
         if f:
             ctx.stat("fault_tool_" + f["tool"])
@@ -231,8 +330,10 @@ def strip(o):
 def run(ctx):
     ctx.coverage["rule"] = ("package targets (aar, nuget, swiftpackage) x platform/architecture sets x switches (clean, stale artifact, absolute out, "
                             "configuration, dSYM/pdb/readme, publish mode, existing clone); per configuration a succeeding run, then every invocation "
-                            "point failing as non-zero exit and as missing command; distinct = (target, phase, publish mode, architectures per platform, "
-                            "dSYM, pdb, failing tool + arguments, fault kind); non-trivial = a fault is injected")
+                            "point failing as non-zero exit and as missing command; then sets of faults: every run that went on after its last fault (handled "
+                            "probe) extended by every later invocation point (non-zero / tools gone), recursively up to three faults; thorough: all pairs; "
+                            "distinct = (target, phase, publish mode, architectures per platform, dSYM, pdb, failing tool + arguments, fault kind, "
+                            "tools + arguments of the fault set); non-trivial = a fault is injected")
     ctx.assumptions += [
         "a tool that fails leaves no output file (stubs write only on success); copytree/copy are atomic",
         "publish is judged from the state a succeeding package run leaves behind (a separate API object, as a separate CLI call would have)",
@@ -254,10 +355,21 @@ def run(ctx):
             calls = [{"tool": x["tool"], "sig": x["sig"]} for x in m["calls"]]  # the succeeding run itself failed (reported above)
         fc = fault_cases(base, calls)
         faults += fc
-    evaluate(ctx, faults, templates, breaks)
+    single = evaluate(ctx, faults, templates, breaks)
+    # sets of faults: extend every run that went on after its last injected fault, to a fixed point (at most three faults)
+    seen, n_sets = set(), 0
+    frontier = follow_ups(single, seen)
+    if not ctx.quick:
+        for c, o, m in ok_runs:
+            if not c.get("fault") and o.get("code") is None and not o.get("prepare_failed"):
+                frontier += pair_cases({k: v for k, v in c.items() if k != "id"}, o["calls"], seen)
+    while frontier:
+        n_sets += len(frontier)
+        frontier = follow_ups(evaluate(ctx, frontier, templates, breaks), seen)
     ctx.stats["correspondence_breaks"] = len(breaks)
     ctx.stats["bases"] = len(bases)
     ctx.stats["fault_cases"] = len(faults)
+    ctx.stats["fault_set_cases"] = n_sets
     if breaks and not ctx.violations:
         ctx.report("correspondence", "packaging model and implementation disagree; the specification holds on every explored fault point",
                    {"correspondence": "c20.run vs package/build/write_package/publish with stub tools", "first": breaks[0], "count": len(breaks)},
